@@ -244,7 +244,9 @@ pub struct VarAsBuiltInFunctionCall {
 impl VarResolve for VarAsBuiltInFunctionCall {
     fn can_handle(&mut self, _ctx: &LinterContext, name: &Name) -> bool {
         self.built_in_function = BuiltInFunction::try_parse(name.as_bare_name());
-        self.built_in_function.is_some()
+        // CHR, STR and STRING name a built-in function only with the `$` suffix;
+        // without it they are ordinary names (try_built_in_function gives Ok(None))
+        self.built_in_function.is_some() && !matches!(try_built_in_function(name), Ok(None))
     }
 
     fn resolve(
